@@ -10,7 +10,7 @@ from vlib.harness import Sub
 
 PROPERTY = "C12"
 RULE = ("generated outputs (as C01, >=2 refined levels, with or without part/sink groups; a quarter of the 3-D ones with "
-        "16-24 CPUs and levelmin 3) x level predicates l<=k, l<k, l==k, a<l<b, l>=a, l!=k, l in {..} (boolean or 0/1 "
+        "16-24 CPUs and levelmin 3 or 48-64 CPUs and levelmin 2) x level predicates l<=k, l<k, l==k, a<l<b, l>=a, l!=k, l in {..} (boolean or 0/1 "
         "masks, accepting at least one level), alone or ANDed with a value predicate (hydro, gravity or RT variable, "
         "threshold taken among the cells inside the window) and/or a position interval placed on a cell of the truncated "
         "tree that the level predicate accepts (a level-L cell where there is one; in the many-CPU regime one box per case "
@@ -33,12 +33,15 @@ def prepare(ctx):
 
 @st.composite
 def case_st(draw):
-    case = draw(rc.output_cases(min_levels=1, max_cpu=9))
+    many_regime = draw(st.integers(0, 3)) == 0
+    case = draw(rc.output_cases(min_levels=1, max_cpu=9, ndims=(3,) if many_regime else (1, 2, 3)))
     case["max_cells"] = 1500
     case["use_minus1"] = False
-    if case["ndim"] == 3 and draw(st.integers(0, 3)) == 0:
+    if many_regime:
         # many small domains and levelmin 3: a cap below levelmin meets the CPU pre-selection
-        case.update(ncpu=draw(st.sampled_from([16, 24])), levelmin=3, levelmax=draw(st.integers(4, 5)), refine_p=[0.03],
+        lmin = draw(st.sampled_from([3, 2]))
+        case.update(ncpu=draw(st.sampled_from([16, 24] if lmin == 3 else [48, 64])), levelmin=lmin,      # 48-64 domains of
+                    levelmax=draw(st.integers(4, 5)), refine_p=[0.03] if lmin == 3 else [0.08],          # about one levelmin cube
                     ordering="hilbert", key_mode=draw(st.sampled_from(["uniform", "random"])), ghost_p=0.1, grav=False,
                     rt_vars=[], nboundary=0, max_cells=3500)
     many = case["ncpu"] >= 16
@@ -53,15 +56,32 @@ def case_st(draw):
             # their father cell, which fine search cubes miss
             p["level"] = {"t": "le", "k": draw(st.integers(1, 2)), "as_int": False}
             extra = "pos"
+        if many and k == 1:
+            # predicates that reject the coarse levels (l >= a, a < l < b), again with a box narrow on every axis
+            a = case["levelmin"] if case["ncpu"] >= 48 else draw(st.integers(case["levelmin"], min(case["levelmin"] + 1, case["levelmax"])))
+            p["level"] = draw(st.sampled_from([{"t": "ge", "k": a, "as_int": False},
+                                               {"t": "band", "a": a - 1, "b": case["levelmax"] + 2}]))
+            extra = "pos"
         if extra in ("val", "both"):
             p["val"] = draw(rs.value_preds(value_vars))
             p["val_from_window"] = True
         if extra in ("pos", "both"):
             p["pos"] = draw(rs.pos_preds(case["ndim"], case["levelmax"]))
-            if p["pos"]["form"] == "leaf" and (draw(st.booleans()) or (many and k == 0)):
+            if p["pos"]["form"] == "leaf" and (draw(st.booleans()) or (many and k <= 1)):
                 p["pos"]["axes"] = "xyz"[: case["ndim"]]
                 p["pos"]["shift"] = (p["pos"]["shift"] + [0.1, -0.2, 0.3])[: case["ndim"]]
-            if many and k == 0:
+            if many and k == 1:
+                p["on_lowest"] = True
+            if many and k == 1 and (case["ncpu"] >= 48 or draw(st.booleans())):
+                # a box narrower than the cell it selects that reaches across the cell's lower faces: the search cubes then
+                # start one cube lower and must still reach the cube that holds the father cell's centre
+                rel = draw(st.sampled_from([0.7, 0.8, 0.9]))
+                # per axis: the lower edge below the cell's lower face (shift - rel/2 < -1/2), the cell centre still inside
+                # (shift + rel/2 > 0)
+                shifts = [-rel / 2 + draw(st.floats(0.1, 0.9)) * (rel - 0.5) for _ in range(3)]
+                p["pos"] = dict(p["pos"], form="leaf", leaf=draw(st.floats(0, 0.999)), axes="xyz"[: case["ndim"]],
+                                rel=rel, shift=shifts, centred=False, by_size=False, edge=False, corner=None)
+            elif many and k <= 1:
                 p["pos"] = dict(p["pos"], form="leaf", leaf=draw(st.floats(0, 0.999)), axes="xyz"[: case["ndim"]],
                                 rel=draw(st.sampled_from([0.02, 0.1, 0.3])), shift=[draw(st.floats(-0.4, 0.4)) for _ in range(3)],
                                 centred=True, by_size=False, edge=False, corner=None)
@@ -89,6 +109,9 @@ def level_limited(case, r):
             # accepts, a level-L cell where there is one
             acc = np.asarray(rs.level_accepts(spec["level"], exp_t["level"]), dtype=bool)
             cand = np.nonzero(acc & (exp_t["level"] == L))[0]
+            if spec.get("on_lowest") and acc.any():
+                # ... or on one of the coarsest accepted cells (their father cells are the coarsest owners involved)
+                cand = np.nonzero(acc & (exp_t["level"] == exp_t["level"][acc].min()))[0]
             if len(cand) == 0:
                 cand = np.nonzero(acc)[0]
             res = rs.resolve(spec, m, exp_t, cand=cand)
@@ -159,7 +182,7 @@ def level_limited(case, r):
 
 
 def subs(ctx):
-    return [Sub("level_limited", level_limited, strategy=case_st(), quick=120, thorough=350,
+    return [Sub("level_limited", level_limited, strategy=case_st(), quick=170, thorough=350,
                 required={"truncation_matters": 0.3, "tiling_case": 0.2, "pos_keeps_truncated_cell": 0.1,
                           "select_names_other_group": 0.2, "files_end_after_level_L": 0.15,
                           "narrow_box_cap_below_levelmin": 0.02})]
